@@ -88,6 +88,9 @@ def run(c, index, tier):
         ref[m] = r
     if not ref:
         return
+    fragile = spec.fragile_rows(est, Xb)
+    if fragile.any():
+        c.probe("rows_at_floating_point_tie", int(fragile.sum()))
     c.log.ev("result", "ref", [(m, C.ahash(v)) for m, v in sorted(ref.items())])
     if spec.name in ("PiecewiseRegressor", "PiecewiseClassifier"):
         try:
@@ -168,6 +171,11 @@ def run(c, index, tier):
             )
             continue
         want = ref[m][idx]
+        solid = ~fragile[idx]
+        if not solid.all():  # rows decided by a floating-point tie are not compared
+            if out.shape[0] == want.shape[0]:
+                out, want = out[solid], want[solid]
+            idx = idx[solid]
         rt, at = tol.get(m, R.TOL)
         if out.shape != want.shape or not U.arrays_equal(out, want, rt, at):
             bad = None
